@@ -178,7 +178,7 @@ def gen_program(rng: random.Random, tier: str = "quick") -> dict:
         ents.append(e)
     if kind in ("shapes", "mixed"):
         for s in range(rng.randint(1, 2)):
-            what = rng.choice(["cylinder", "ring", "hemisphere", "hemisphere_copy", "hemisphere_pair", "frustum", "boxes"])
+            what = rng.choice(["cylinder", "ring", "hemisphere", "hemisphere_copy", "hemisphere_pair", "hemisphere_moved", "frustum", "boxes"])
             e = {"t": what, "at": [4.0 * (s + 1), 0.0, 0.0], "calls": []}
             if rng.random() < 0.6:
                 e["calls"].append(["start", rng.choice(names)])
@@ -227,6 +227,8 @@ def gen_program(rng: random.Random, tier: str = "quick") -> dict:
         "count": count,
         "vtk": rng.random() < 0.5,
         "far": far and n_ops > 0,
+        # the mesh is assembled, then cleared / backported and assembled again before it is written
+        "reassemble": rng.choice(["clear", "backport"]) if rng.random() < 0.3 else None,
     }
 
 
@@ -308,6 +310,10 @@ def build(case: dict):
             first = cb.Hemisphere(at, at + [0, 1, 0], [1, 0, 0])
             ents.append(first)
             obj = first.copy().rotate(np.pi, [0, 0, 1], at + [0, 2.5, 0])
+        elif t == "hemisphere_moved":
+            first = cb.Hemisphere(at, at + [0, 1, 0], [1, 0, 0])
+            ents.append(first)
+            obj = first.copy().translate([0, 0, 3.5])
         else:  # a stack of boxes added as separate operations
             obj = None
             for k in range(2):
@@ -487,6 +493,7 @@ def request_words(decl: dict, case: dict, settings: Dict[str, Any], tails: List[
             ops.append(w)
         ents.append(w_list(ops) + w_list(_g_entries(e["geometry"])))
     words += w_list(ents)
+    words.append("1" if case.get("reassemble") else "0")
     return words
 
 
@@ -509,7 +516,8 @@ class C06(core.Check):
         "(Cylinder, Frustum, ExtrudedRing, Hemisphere, a copied Hemisphere, a Hemisphere with a rotated copy, boxes) with "
         "start/outer patches and zones; mesh calls merge_patches / set_default_patch / modify_patch (with and without "
         "settings) / add_geometry / settings, 35% of the programs make part of them after an explicit assemble(); 30% "
-        "delete one or two operations (also inside shapes); uniform count-only chops. Non-trivial = every program; "
+        "delete one or two operations (also inside shapes); 30% assemble, then clear() or backport() and assemble again "
+        "before writing; uniform count-only chops. Non-trivial = every program; "
         "distinct = different declaration."
     )
     assumptions = [
@@ -549,11 +557,20 @@ class C06(core.Check):
         with warnings.catch_warnings():
             warnings.simplefilter("ignore")
             mesh, ents, apply = build(case)
-            decl = declaration(mesh, case, False)
-            if case["explicit_assemble"]:
+            re = case.get("reassemble")
+            if not re:
+                decl = declaration(mesh, case, False)
+            if case["explicit_assemble"] or re:
                 mesh.assemble()
                 apply(case["after"])
                 apply(case["settings_after"])
+            if re == "clear":
+                mesh.clear()
+            elif re == "backport":
+                mesh.backport()
+            if re:
+                # the depot as it is before the file is written (backport has updated the operations' points)
+                decl = declaration(mesh, case, True)
             tmp = tempfile.mkdtemp(prefix="cbv_c06_", dir=str(core.ROOT / "evidence"))
             try:
                 path = os.path.join(tmp, "blockMeshDict")
@@ -951,6 +968,18 @@ class C06(core.Check):
                 for kx, v in c[1].items():
                     want_g[kx] = [nest(tokenize(p)) for p in v]
                     user_g[kx] = want_g[kx]
+        if case.get("reassemble"):
+            # the second assembly adds the geometry of the entities again
+            for e in decl["entities"]:
+                for kx, v in e["geometry"].items():
+                    want_g[kx] = [nest(tokenize(p)) for p in v]
+        # two different shapes must not bring one name for two different geometries (one would overwrite the other)
+        brought: Dict[str, Tuple[int, list]] = {}
+        for ei, e in enumerate(decl["entities"]):
+            for kx, v in e["geometry"].items():
+                if kx in brought and brought[kx][0] != ei and brought[kx][1] != v:
+                    bad(f"geometry:two-shapes-one-label:{e['cls']}", f"`{kx}` is defined as {brought[kx][1]} by entity {brought[kx][0]} and as {v} by entity {ei}")
+                brought.setdefault(kx, (ei, v))
         if geo != want_g:
             bad("GeometryList.description:entries", f"file {sorted(geo)}, declared {sorted(want_g)}" if set(geo) != set(want_g) else "properties differ")
         used = set()
@@ -1000,6 +1029,38 @@ class C06(core.Check):
                 foreign = labs - own - set(user_g)
                 if foreign:
                     bad(f"geometry:shape-projects-to-foreign-label:{e['cls']}", f"{sorted(foreign)} not among its own geometry {sorted(own)}")
+
+        # ---- a built-in sphere is projected to its own sphere: the vertices of every side it projects lie on the
+        # searchableSphere that the file defines under that label
+        bi = 0
+        off_sphere = False
+        for e in decl["entities"]:
+            spheres = {}
+            for kx in e["geometry"]:
+                st = {s0[0]: s0[1:] for s0 in geo.get(kx, []) if s0}
+                if st.get("type") == ["searchableSphere"] and "centre" in st and "radius" in st:
+                    try:
+                        spheres[kx] = ([float(x) for x in st["centre"][0][1]], float(st["radius"][0]))
+                    except (ValueError, IndexError, TypeError):
+                        pass
+            for o in e["ops"]:
+                if o["deleted"]:
+                    continue
+                projs = list(zip(["front", "right", "back", "left"], o["side_proj"])) + [("bottom", o["bottom_proj"]), ("top", o["top_proj"])]
+                for side, lab in projs:
+                    if lab in spheres and not off_sphere:
+                        centre, radius = spheres[lab]
+                        for c in BM_SIDE_CYCLE[side]:
+                            p = [float(x) for x in verts[hexes[bi][c]]["xyz"]]
+                            dist = sum((a - b) ** 2 for a, b in zip(p, centre)) ** 0.5
+                            if abs(dist - radius) > 1e-6 * max(1.0, radius):
+                                bad(
+                                    f"geometry:projected-side-not-on-its-sphere:{e['cls']}",
+                                    f"block {bi} side {side} is projected to `{lab}` = sphere(centre {centre}, radius {radius}) but its corner {c} at {p} is {dist} away from the centre",
+                                )
+                                off_sphere = True
+                                break
+                bi += 1
 
         # ---- second opinion: the clauses decided by the Lean model on the dictionary it parsed from the file
         fl = impl.get("flags")
@@ -1053,6 +1114,8 @@ class C06(core.Check):
             flags.append("merge")
         if case.get("far"):
             flags.append("far-origin")
+        if case.get("reassemble"):
+            flags.append("re-" + case["reassemble"])
         return "+".join(kinds) + "|" + "+".join(flags)
 
 
